@@ -244,6 +244,9 @@ func (g *pkgGen) config(i int) genOut {
 	if g.chance(6) {
 		c.Description = ""
 	}
+	if g.chance(40) {
+		c.Description = "synopsis before a very long line\n" + strings.Repeat("x", 70000) + "\nline after it"
+	}
 	c.Vendor = g.pick([]string{"", "MyCorp", "Ünï Corp"})
 	c.Homepage = g.pick([]string{"", "https://example.com"})
 	c.License = g.pick([]string{"", "MIT", "Apache-2.0 OR MIT"})
@@ -528,6 +531,12 @@ func emitObs(w *caseWriter, o *pkgObs) {
 	if b, ok := o.Raw["install"]; ok {
 		w.line("install %s", xs(string(b)))
 	}
+	if b, ok := o.Raw["control"]; ok {
+		w.line("rawmeta %s", xs(string(b)))
+	}
+	if b, ok := o.Raw["pkginfo"]; ok {
+		w.line("rawmeta %s", xs(string(b)))
+	}
 	for _, n := range o.Notes {
 		w.line("note %s", xs(n))
 	}
@@ -578,6 +587,14 @@ func runPkgCase(w *caseWriter, id string, d pkgDesc, st *pkgStats, extra func(w 
 			continue
 		}
 		emitInfo(w, info)
+		// the version-related values as written in the document, before WithDefaults splits them
+		var rawCfg nfpm.Config
+		if yaml.Unmarshal([]byte(d.YAML), &rawCfg) == nil {
+			w.line("raw %s %s", xs("version"), xs(rawCfg.Version))
+			w.line("raw %s %s", xs("prerelease"), xs(rawCfg.Prerelease))
+			w.line("raw %s %s", xs("version_metadata"), xs(rawCfg.VersionMetadata))
+			w.line("raw %s %s", xs("version_schema"), xs(rawCfg.VersionSchema))
+		}
 		// content oracle for the packager's PrepareForPackager call
 		ss := statSet{}
 		contents := info.Contents
